@@ -1,7 +1,12 @@
-(* Lemmas about Model/NameGen.v: the regenerate-until-unused loop returns an unused name and always terminates
-   within |used|+2 attempts; assign_names yields pairwise distinct names and keeps user names that are free;
-   anchor_split's single regeneration is NOT collision-free in general (witness) but is when no user column is
-   spelled like a future generated name. *)
+(* Lemmas about Model/NameGen.v.
+   - the regenerate-until-unused loop (regen_with) returns a name outside the used set, keeps a free name, and
+     terminates within |used|+2 attempts for every generator that hands out gen_name p k with increasing k;
+   - gen_unreserved / gen_table_name: the result is a generated name whose lower-cased form is not reserved; it
+     terminates within |reserved|+1 attempts when lower-casing leaves generated names unchanged;
+   - assign_names: pairwise distinct names; every name it generates differs, compared through `lower`, from every
+     user name in the reserved set and from every other name of the result; user names that are free are kept;
+   - ensure_column_name / split_names / select_item_alias: exact distinctness for all inputs; the case-insensitive
+     statement for columns is false (witness) and holds when no user column is a case variant of a generated name. *)
 From Coq Require Import List NArith Bool Lia FinFun.
 From PV Require Import Lib.ListX Model.SqlLex Model.Literal Model.Ident Model.NameGen
                        Proofs.LiteralProofs Proofs.IdentProofs.
@@ -14,242 +19,551 @@ Proof. intro H. rewrite <- (digits_of_value a), <- (digits_of_value b), H. refle
 Lemma gen_name_inj p a b : gen_name p a = gen_name p b -> a = b.
 Proof. unfold gen_name. intro H. apply app_inv_head in H. apply digits_of_inj, H. Qed.
 
-(* ------------------------------------------------------------------ regen *)
+(* a generator in the sense of the loops: hands out gen_name p k for some k at or after the counter *)
+Definition gen_ok (p : str) (g : N -> option (str * N)) : Prop :=
+  forall n x n', g n = Some (x, n') -> exists k, n <= k /\ x = gen_name p k /\ n' = N.succ k.
+Definition gen_total (g : N -> option (str * N)) : Prop := forall n, exists x n', g n = Some (x, n').
 
-Lemma regen_some_unfold fuel p used nm n :
-  regen fuel p used (Some nm) n =
-  if mem_str nm used then match fuel with O => None | S f => regen f p used (Some (gen_name p n)) (N.succ n) end
-  else Some (nm, n).
-Proof. destruct fuel; reflexivity. Qed.
+Lemma plain_gen_ok p : gen_ok p (plain_gen p).
+Proof. intros n x n' H. injection H as <- <-. exists n. split; [lia | split; reflexivity]. Qed.
+Lemma plain_gen_total p : gen_total (plain_gen p).
+Proof. intro n. eexists _, _. reflexivity. Qed.
 
-Lemma regen_none_unfold fuel p used n :
-  regen fuel p used None n =
-  match fuel with O => None | S f => regen f p used (Some (gen_name p n)) (N.succ n) end.
-Proof. destruct fuel; reflexivity. Qed.
+(* ------------------------------------------------------------------ regen_with *)
 
-Lemma regen_fresh_some p used : forall fuel x n nm n',
-  regen fuel p used (Some x) n = Some (nm, n') -> mem_str nm used = false.
-Proof.
-  induction fuel as [|f IH]; intros x n nm n' H; rewrite regen_some_unfold in H.
-  - destruct (mem_str x used) eqn:E; [discriminate|]. injection H as <- _. exact E.
-  - destruct (mem_str x used) eqn:E; [exact (IH _ _ _ _ H)|]. injection H as <- _. exact E.
-Qed.
+Section Regen.
+  Variable p : str.
+  Variable g : N -> option (str * N).
+  Variable used : list str.
 
-Theorem regen_fresh p used fuel cur n nm n' :
-  regen fuel p used cur n = Some (nm, n') -> ~ In nm used.
-Proof.
-  intro H. apply mem_str_false. destruct cur as [x|].
-  - exact (regen_fresh_some p used fuel x n nm n' H).
-  - rewrite regen_none_unfold in H. destruct fuel as [|f]; [discriminate|].
-    exact (regen_fresh_some p used f _ _ nm n' H).
-Qed.
+  Lemma regen_some_unfold fuel nm n :
+    regen_with g fuel used (Some nm) n =
+    if mem_str nm used then
+      match fuel with
+      | O => None
+      | S f => match g n with Some (x, n1) => regen_with g f used (Some x) n1 | None => None end
+      end
+    else Some (nm, n).
+  Proof. destruct fuel; reflexivity. Qed.
+
+  Lemma regen_none_unfold fuel n :
+    regen_with g fuel used None n =
+    match fuel with
+    | O => None
+    | S f => match g n with Some (x, n1) => regen_with g f used (Some x) n1 | None => None end
+    end.
+  Proof. destruct fuel; reflexivity. Qed.
+
+  Lemma regen_with_fresh_some : forall fuel x n nm n',
+    regen_with g fuel used (Some x) n = Some (nm, n') -> mem_str nm used = false.
+  Proof.
+    induction fuel as [|f IH]; intros x n nm n' H; rewrite regen_some_unfold in H.
+    - destruct (mem_str x used) eqn:E; [discriminate|]. injection H as <- _. exact E.
+    - destruct (mem_str x used) eqn:E.
+      + destruct (g n) as [[x1 n1]|]; [exact (IH _ _ _ _ H) | discriminate].
+      + injection H as <- _. exact E.
+  Qed.
+
+  Lemma regen_with_fresh fuel cur n nm n' :
+    regen_with g fuel used cur n = Some (nm, n') -> ~ In nm used.
+  Proof.
+    intro H. apply mem_str_false. destruct cur as [x|].
+    - exact (regen_with_fresh_some fuel x n nm n' H).
+    - rewrite regen_none_unfold in H. destruct fuel as [|f]; [discriminate|].
+      destruct (g n) as [[x1 n1]|]; [|discriminate].
+      exact (regen_with_fresh_some f _ _ nm n' H).
+  Qed.
+
+  Lemma regen_with_keeps fuel nm n : ~ In nm used -> regen_with g fuel used (Some nm) n = Some (nm, n).
+  Proof. intro H. apply mem_str_false in H. rewrite regen_some_unfold, H. reflexivity. Qed.
+
+  (* the result is the current name (counter untouched) or a name the generator handed out at or after the counter *)
+  Lemma regen_with_origin_some (G : gen_ok p g) : forall fuel x n nm n',
+    regen_with g fuel used (Some x) n = Some (nm, n') ->
+    (nm = x /\ n' = n) \/ (exists k, n <= k /\ nm = gen_name p k /\ k < n').
+  Proof.
+    induction fuel as [|f IH]; intros x n nm n' H; rewrite regen_some_unfold in H.
+    - destruct (mem_str x used); [discriminate|]. injection H as <- <-. left. split; reflexivity.
+    - destruct (mem_str x used).
+      + destruct (g n) as [[x1 n1]|] eqn:E; [|discriminate].
+        destruct (G _ _ _ E) as (k & Hk & -> & ->).
+        destruct (IH _ _ _ _ H) as [[-> ->]|(k' & Hk' & -> & Hlt)]; right.
+        * exists k. split; [exact Hk | split; [reflexivity | lia]].
+        * exists k'. split; [lia | split; [reflexivity | exact Hlt]].
+      + injection H as <- <-. left. split; reflexivity.
+  Qed.
+
+  Lemma regen_with_origin (G : gen_ok p g) fuel cur n nm n' :
+    regen_with g fuel used cur n = Some (nm, n') ->
+    (cur = Some nm /\ n' = n) \/ (exists k, n <= k /\ nm = gen_name p k /\ k < n').
+  Proof.
+    intro H. destruct cur as [x|].
+    - destruct (regen_with_origin_some G _ _ _ _ _ H) as [[-> ->]|R]; [left; split; reflexivity | right; exact R].
+    - rewrite regen_none_unfold in H. destruct fuel as [|f]; [discriminate|].
+      destruct (g n) as [[x1 n1]|] eqn:E; [|discriminate].
+      destruct (G _ _ _ E) as (k & Hk & -> & ->). right.
+      destruct (regen_with_origin_some G _ _ _ _ _ H) as [[-> ->]|(k' & Hk' & -> & Hlt)].
+      + exists k. split; [exact Hk | split; [reflexivity | lia]].
+      + exists k'. split; [lia | split; [reflexivity | exact Hlt]].
+  Qed.
+
+  Lemma regen_with_counter (G : gen_ok p g) fuel cur n nm n' :
+    regen_with g fuel used cur n = Some (nm, n') -> n <= n'.
+  Proof. intro H. destruct (regen_with_origin G _ _ _ _ _ H) as [[_ ->]|(k & Hk & _ & Hlt)]; lia. Qed.
+
+  (* failure means `fuel` different generated names are all taken *)
+  Lemma regen_with_none_all_used (G : gen_ok p g) (T : gen_total g) : forall fuel x n,
+    regen_with g fuel used (Some x) n = None ->
+    mem_str x used = true /\
+    exists ks, length ks = fuel /\ NoDup ks /\ forall k, In k ks -> n <= k /\ In (gen_name p k) used.
+  Proof.
+    induction fuel as [|f IH]; intros x n H; rewrite regen_some_unfold in H;
+      destruct (mem_str x used) eqn:E; try discriminate.
+    - split; [reflexivity|]. exists []. split; [reflexivity | split; [constructor | intros k []]].
+    - split; [reflexivity|].
+      destruct (T n) as (x1 & n1 & Eg). rewrite Eg in H.
+      destruct (G _ _ _ Eg) as (k & Hk & -> & ->).
+      destruct (IH _ _ H) as (M & ks & L & ND & A).
+      exists (k :: ks). split; [cbn; congruence|]. split.
+      + constructor; [|exact ND]. intro Hin. destruct (A _ Hin) as [Hle _]. lia.
+      + intros k' [<-|Hin].
+        * split; [exact Hk | apply mem_str_spec, M].
+        * destruct (A _ Hin) as [Hle Hu]. split; [lia | exact Hu].
+  Qed.
+
+  Lemma regen_with_some_total (G : gen_ok p g) (T : gen_total g) fuel x n : (length used < fuel)%nat ->
+    exists nm n', regen_with g fuel used (Some x) n = Some (nm, n').
+  Proof.
+    intro Hf. destruct (regen_with g fuel used (Some x) n) as [[nm n']|] eqn:E; [eauto|]. exfalso.
+    destruct (regen_with_none_all_used G T _ _ _ E) as (_ & ks & L & ND & A).
+    assert (NoDup (map (gen_name p) ks)) as ND'.
+    { apply FinFun.Injective_map_NoDup; [|exact ND]. intros a b Hab. exact (gen_name_inj _ _ _ Hab). }
+    assert (incl (map (gen_name p) ks) used) as I.
+    { intros y Hy. apply in_map_iff in Hy as [k [<- Hk]]. exact (proj2 (A _ Hk)). }
+    pose proof (NoDup_incl_length ND' I) as Len. rewrite map_length in Len. lia.
+  Qed.
+
+  Lemma regen_with_total (G : gen_ok p g) (T : gen_total g) fuel cur n : (S (length used) < fuel)%nat ->
+    exists nm n', regen_with g fuel used cur n = Some (nm, n').
+  Proof.
+    intro Hf. destruct cur as [x|].
+    - apply regen_with_some_total; [exact G | exact T | lia].
+    - rewrite regen_none_unfold. destruct fuel as [|f]; [lia|].
+      destruct (T n) as (x1 & n1 & Eg). rewrite Eg. apply regen_with_some_total; [exact G | exact T | lia].
+  Qed.
+End Regen.
+
+(* ---- the column-side instance *)
+Theorem regen_fresh p used fuel cur n nm n' : regen fuel p used cur n = Some (nm, n') -> ~ In nm used.
+Proof. exact (regen_with_fresh _ _ _ _ _ _ _). Qed.
 
 Theorem regen_keeps p used fuel nm n : ~ In nm used -> regen fuel p used (Some nm) n = Some (nm, n).
-Proof. intro H. apply mem_str_false in H. rewrite regen_some_unfold, H. reflexivity. Qed.
+Proof. exact (regen_with_keeps _ _ _ _ _). Qed.
 
-(* failure means the next `fuel` generated names are all taken *)
-Lemma regen_none_all_used p used : forall fuel x n,
-  regen fuel p used (Some x) n = None ->
-  forall i, (i < fuel)%nat -> In (gen_name p (n + N.of_nat i)) used.
-Proof.
-  induction fuel as [|f IH]; intros x n H i Hi; [lia|].
-  rewrite regen_some_unfold in H. destruct (mem_str x used) eqn:E; [|discriminate].
-  destruct i as [|i].
-  - rewrite N.add_0_r.
-    rewrite regen_some_unfold in H. destruct (mem_str (gen_name p n) used) eqn:E2.
-    + apply mem_str_spec, E2.
-    + discriminate.
-  - replace (n + N.of_nat (S i)) with (N.succ n + N.of_nat i) by lia.
-    apply (IH _ _ H). lia.
-Qed.
-
-Lemma gen_names_nodup p n : forall f, NoDup (map (fun i => gen_name p (n + N.of_nat i)) (seq 0 f)).
-Proof.
-  intro f. apply FinFun.Injective_map_NoDup; [|apply seq_NoDup].
-  intros a b H. apply gen_name_inj in H. lia.
-Qed.
-
-Lemma regen_some_total p used fuel x n : (length used < fuel)%nat ->
-  exists nm n', regen fuel p used (Some x) n = Some (nm, n').
-Proof.
-  intro Hf. destruct (regen fuel p used (Some x) n) as [[nm n']|] eqn:E; [eauto|]. exfalso.
-  pose proof (regen_none_all_used p used fuel x n E) as A.
-  pose proof (gen_names_nodup p n fuel) as ND.
-  assert (incl (map (fun i => gen_name p (n + N.of_nat i)) (seq 0 fuel)) used) as I.
-  { intros y Hy. apply in_map_iff in Hy as [i [<- Hi]]. apply in_seq in Hi. apply A. lia. }
-  pose proof (NoDup_incl_length ND I) as L. rewrite map_length, seq_length in L. lia.
-Qed.
-
-Theorem regen_total p used fuel cur n : (S (length used) < fuel)%nat ->
-  exists nm n', regen fuel p used cur n = Some (nm, n').
-Proof.
-  intro Hf. destruct cur as [x|].
-  - apply regen_some_total. lia.
-  - rewrite regen_none_unfold. destruct fuel as [|f]; [lia|]. apply regen_some_total. lia.
-Qed.
-
-(* ------------------------------------------------------------------ assign_names *)
-
-Theorem assign_names_spec p : forall decls names n l n',
-  assign_names p decls names n = Some (l, n') ->
-  NoDup l /\ (forall x, In x l -> ~ In x names).
-Proof.
-  induction decls as [|d ds IH]; intros names n l n' H; cbn [assign_names] in H.
-  - injection H as <- _. split; [constructor | intros x []].
-  - destruct (regen (S (S (length names))) p names d n) as [[nm n1]|] eqn:R; [|discriminate].
-    destruct (assign_names p ds (nm :: names) n1) as [[l1 n2]|] eqn:A; [|discriminate].
-    injection H as <- _. destruct (IH _ _ _ _ A) as [ND F]. pose proof (regen_fresh _ _ _ _ _ _ _ R) as Fr.
-    split.
-    + constructor; [|exact ND]. intro Hin. apply (F nm Hin). left. reflexivity.
-    + intros x [<-|Hx]; [exact Fr|]. intro Hn. apply (F x Hx). right. exact Hn.
-Qed.
-
-Theorem assign_names_total p : forall decls names n, exists l n', assign_names p decls names n = Some (l, n').
-Proof.
-  induction decls as [|d ds IH]; intros names n; cbn [assign_names]; [eauto|].
-  destruct (regen_total p names (S (S (length names))) d n) as (nm & n1 & R); [lia|]. rewrite R.
-  destruct (IH (nm :: names) n1) as (l & n2 & A). rewrite A. eauto.
-Qed.
-
-(* a declaration that already has a name not taken by an earlier one keeps it: user tables keep their names *)
-Theorem assign_names_keeps_user p nm ds names n l n' :
-  ~ In nm names -> assign_names p (Some nm :: ds) names n = Some (l, n') -> exists l', l = nm :: l'.
-Proof.
-  intros Hn H. cbn [assign_names] in H. rewrite (regen_keeps p names _ nm n Hn) in H.
-  destruct (assign_names p ds (nm :: names) n) as [[l1 n2]|]; [|discriminate]. injection H as <- _. eauto.
-Qed.
-
-(* ------------------------------------------------------------------ anchor_split *)
-
-Section Split.
-  Variable p : str.
-  Variable all : list (option str).
-  Variable n0 : N.
-  Hypothesis clash_free : forall k, n0 <= k -> ~ In (Some (gen_name p k)) all.
-
-  Lemma split_names_once_inv : forall cs used n,
-    (forall x, In x used -> In (Some x) all \/ exists k, k < n /\ x = gen_name p k) ->
-    incl cs all -> n0 <= n ->
-    NoDup (somes (fst (split_names_once p cs used n))) /\
-    (forall x, In x (somes (fst (split_names_once p cs used n))) -> ~ In x used).
-  Proof.
-    induction cs as [|c cs IH]; intros used n Inv Hi Hn.
-    - cbn. split; [constructor | intros x []].
-    - assert (incl cs all) as Hi' by (intros y Hy; apply Hi; right; exact Hy).
-      destruct c as [nm|]; cbn [split_names_once].
-      + destruct (mem_str nm used) eqn:E.
-        * (* duplicate: replaced by one generated name *)
-          assert (~ In (gen_name p n) used) as Fr.
-          { intro Hin. destruct (Inv _ Hin) as [Ha|[k [Hk Ek]]].
-            - exact (clash_free n Hn Ha).
-            - apply gen_name_inj in Ek. lia. }
-          assert (forall x, In x (gen_name p n :: used) -> In (Some x) all \/ exists k, k < N.succ n /\ x = gen_name p k) as Inv'.
-          { intros x [<-|Hx]; [right; exists n; split; [lia | reflexivity]|].
-            destruct (Inv _ Hx) as [Ha|[k [Hk Ek]]]; [left; exact Ha | right; exists k; split; [lia | exact Ek]]. }
-          destruct (IH (gen_name p n :: used) (N.succ n) Inv' Hi' ltac:(lia)) as [ND F].
-          destruct (split_names_once p cs (gen_name p n :: used) (N.succ n)) as [l n'] eqn:S. cbn [fst somes] in *.
-          split.
-          -- constructor; [|exact ND]. intro Hin. apply (F _ Hin). left. reflexivity.
-          -- intros x [<-|Hx]; [exact Fr|]. intro Hu. apply (F _ Hx). right. exact Hu.
-        * apply mem_str_false in E.
-          assert (forall x, In x (nm :: used) -> In (Some x) all \/ exists k, k < n /\ x = gen_name p k) as Inv'.
-          { intros x [<-|Hx]; [left; apply Hi; left; reflexivity | exact (Inv _ Hx)]. }
-          destruct (IH (nm :: used) n Inv' Hi' Hn) as [ND F].
-          destruct (split_names_once p cs (nm :: used) n) as [l n'] eqn:S. cbn [fst somes] in *.
-          split.
-          -- constructor; [|exact ND]. intro Hin. apply (F _ Hin). left. reflexivity.
-          -- intros x [<-|Hx]; [exact E|]. intro Hu. apply (F _ Hx). right. exact Hu.
-      + destruct (IH used n Inv Hi' Hn) as [ND F].
-        destruct (split_names_once p cs used n) as [l n'] eqn:S. cbn [fst somes] in *. split; assumption.
-  Qed.
-End Split.
-
-Theorem split_names_once_nodup p cols n :
-  (forall k, n <= k -> ~ In (Some (gen_name p k)) cols) ->
-  NoDup (somes (fst (split_names_once p cols [] n))).
-Proof.
-  intro H. apply (split_names_once_inv p cols n H cols [] n); [intros x [] | apply incl_refl | lia].
-Qed.
-
-(* anchor_split as it is NOW (regenerate until unused) is collision-free for ALL inputs *)
-Theorem split_names_spec p : forall cols used n l n',
-  split_names p cols used n = Some (l, n') ->
-  NoDup (somes l) /\ (forall x, In x (somes l) -> ~ In x used).
-Proof.
-  induction cols as [|c cs IH]; intros used n l n' H; cbn [split_names] in H.
-  - injection H as <- _. split; [constructor | intros x []].
-  - destruct c as [nm|].
-    + destruct (regen (S (S (length used))) p used (Some nm) n) as [[nm1 n1]|] eqn:R; [|discriminate].
-      destruct (split_names p cs (nm1 :: used) n1) as [[l1 n2]|] eqn:A; [|discriminate].
-      injection H as <- _. destruct (IH _ _ _ _ A) as [ND F]. pose proof (regen_fresh _ _ _ _ _ _ _ R) as Fr.
-      cbn [somes]. split.
-      * constructor; [|exact ND]. intro Hin. apply (F _ Hin). left. reflexivity.
-      * intros x [<-|Hx]; [exact Fr|]. intro Hu. apply (F _ Hx). right. exact Hu.
-    + destruct (split_names p cs used n) as [[l1 n2]|] eqn:A; [|discriminate].
-      injection H as <- _. cbn [somes]. exact (IH _ _ _ _ A).
-Qed.
-
-(* ------------------------------------------------------------------ the statements of Props/C09.v *)
+Theorem regen_total p used fuel cur n : (S (length used) < fuel)%nat -> exists nm n', regen fuel p used cur n = Some (nm, n').
+Proof. exact (regen_with_total p _ _ (plain_gen_ok p) (plain_gen_total p) _ _ _). Qed.
 
 Theorem regen_terminates p used cur n : exists nm n', regen (S (S (length used))) p used cur n = Some (nm, n').
 Proof. apply regen_total. apply le_n. Qed.
 
-Lemma assign_names_length p : forall decls names n l n', assign_names p decls names n = Some (l, n') -> length l = length decls.
+Lemma regen_origin p used fuel cur n nm n' : regen fuel p used cur n = Some (nm, n') ->
+  (cur = Some nm /\ n' = n) \/ (exists k, n <= k /\ nm = gen_name p k /\ k < n').
+Proof. exact (regen_with_origin p _ _ (plain_gen_ok p) _ _ _ _ _). Qed.
+
+(* ------------------------------------------------------------------ gen_unreserved *)
+
+Section Unreserved.
+  Variable lower : str -> str.
+  Variable p : str.
+  Variable reserved : list str.
+
+  Lemma gen_unreserved_spec : forall fuel n x n',
+    gen_unreserved fuel lower p reserved n = Some (x, n') ->
+    exists k, n <= k /\ x = gen_name p k /\ n' = N.succ k /\ ~ In (lower x) reserved.
+  Proof.
+    induction fuel as [|f IH]; intros n x n' H; cbn [gen_unreserved] in H; [discriminate|].
+    destruct (mem_str (lower (gen_name p n)) reserved) eqn:E.
+    - destruct (IH _ _ _ H) as (k & Hk & Hx & Hn & Hr). exists k. split; [lia | auto].
+    - injection H as <- <-. exists n. split; [lia|]. split; [reflexivity|]. split; [reflexivity|].
+      apply mem_str_false, E.
+  Qed.
+
+  Lemma gen_table_name_ok : gen_ok p (gen_table_name lower p reserved).
+  Proof.
+    intros n x n' H. destruct (gen_unreserved_spec _ _ _ _ H) as (k & Hk & Hx & Hn & _). exists k. auto.
+  Qed.
+
+  (* lower-casing leaves generated names unchanged (true of to_lowercase / lower_ascii for the prefixes of the source) *)
+  Hypothesis gen_stable : forall k, lower (gen_name p k) = gen_name p k.
+
+  Lemma gen_unreserved_none : forall fuel n,
+    gen_unreserved fuel lower p reserved n = None ->
+    forall i, (i < fuel)%nat -> In (gen_name p (n + N.of_nat i)) reserved.
+  Proof.
+    induction fuel as [|f IH]; intros n H i Hi; [lia|]. cbn [gen_unreserved] in H.
+    destruct (mem_str (lower (gen_name p n)) reserved) eqn:E; [|discriminate].
+    destruct i as [|i].
+    - rewrite N.add_0_r. rewrite gen_stable in E. apply mem_str_spec, E.
+    - replace (n + N.of_nat (S i)) with (N.succ n + N.of_nat i) by lia. apply (IH _ H). lia.
+  Qed.
+
+  Lemma gen_names_nodup n : forall f, NoDup (map (fun i => gen_name p (n + N.of_nat i)) (seq 0 f)).
+  Proof.
+    intro f. apply FinFun.Injective_map_NoDup; [|apply seq_NoDup].
+    intros a b H. apply gen_name_inj in H. lia.
+  Qed.
+
+  Lemma gen_table_name_total : gen_total (gen_table_name lower p reserved).
+  Proof.
+    intro n. unfold gen_table_name.
+    destruct (gen_unreserved (S (length reserved)) lower p reserved n) as [[x n']|] eqn:E; [eauto|]. exfalso.
+    pose proof (gen_unreserved_none _ _ E) as A.
+    pose proof (gen_names_nodup n (S (length reserved))) as ND.
+    assert (incl (map (fun i => gen_name p (n + N.of_nat i)) (seq 0 (S (length reserved)))) reserved) as I.
+    { intros y Hy. apply in_map_iff in Hy as [i [<- Hi]]. apply in_seq in Hi. apply A. lia. }
+    pose proof (NoDup_incl_length ND I) as L. rewrite map_length, seq_length in L. lia.
+  Qed.
+End Unreserved.
+
+(* ---- the table-side loop *)
+Theorem regen_r_fresh lower p reserved used fuel cur n nm n' :
+  regen_r fuel lower p reserved used cur n = Some (nm, n') -> ~ In nm used.
+Proof. exact (regen_with_fresh _ _ _ _ _ _ _). Qed.
+
+Theorem regen_r_keeps lower p reserved used fuel nm n :
+  ~ In nm used -> regen_r fuel lower p reserved used (Some nm) n = Some (nm, n).
+Proof. exact (regen_with_keeps _ _ _ _ _). Qed.
+
+Theorem regen_r_total lower p reserved used cur n :
+  (forall k, lower (gen_name p k) = gen_name p k) ->
+  exists nm n', regen_r (S (S (length used))) lower p reserved used cur n = Some (nm, n').
 Proof.
-  induction decls as [|d ds IH]; intros names n l n' A; cbn [assign_names] in A.
-  - injection A as <- _. reflexivity.
-  - destruct (regen (S (S (length names))) p names d n) as [[nm n1]|]; [|discriminate].
-    destruct (assign_names p ds (nm :: names) n1) as [[l1 n2]|] eqn:B; [|discriminate].
-    injection A as <- _. cbn [length]. f_equal. exact (IH _ _ _ _ B).
+  intro St. apply (regen_with_total p _ _ (gen_table_name_ok lower p reserved) (gen_table_name_total lower p reserved St)). apply le_n.
 Qed.
 
-Theorem assign_names_fresh p decls n :
-  exists l n', assign_names p decls [] n = Some (l, n') /\ NoDup l /\ length l = length decls.
+(* the result is the name that came in, or a generated name whose lower-cased form is not reserved *)
+Lemma regen_with_unreserved lower p reserved used : forall fuel cur n nm n',
+  regen_r fuel lower p reserved used cur n = Some (nm, n') ->
+  (cur = Some nm /\ n' = n) \/ ((exists k, n <= k /\ nm = gen_name p k /\ k < n') /\ ~ In (lower nm) reserved).
 Proof.
-  destruct (assign_names_total p decls [] n) as (l & n' & A). exists l, n'. split; [exact A|]. split.
-  - exact (proj1 (assign_names_spec p decls [] n l n' A)).
-  - exact (assign_names_length p decls [] n l n' A).
+  unfold regen_r.
+  assert (forall fuel x n nm n', regen_with (gen_table_name lower p reserved) fuel used (Some x) n = Some (nm, n') ->
+            (x = nm /\ n' = n) \/ ((exists k, n <= k /\ nm = gen_name p k /\ k < n') /\ ~ In (lower nm) reserved)) as S.
+  { induction fuel as [|f IH]; intros x n nm n' H; rewrite regen_some_unfold in H.
+    - destruct (mem_str x used); [discriminate|]. injection H as <- <-. left. split; reflexivity.
+    - destruct (mem_str x used).
+      + destruct (gen_table_name lower p reserved n) as [[x1 n1]|] eqn:E; [|discriminate].
+        destruct (gen_unreserved_spec _ _ _ _ _ _ _ E) as (k & Hk & -> & -> & Hr).
+        destruct (IH _ _ _ _ H) as [[<- ->]|[(k' & Hk' & -> & Hlt) Hr']]; right.
+        * split; [exists k; split; [exact Hk | split; [reflexivity | lia]] | exact Hr].
+        * split; [exists k'; split; [lia | split; [reflexivity | exact Hlt]] | exact Hr'].
+      + injection H as <- <-. left. split; reflexivity. }
+  intros fuel cur n nm n' H. destruct cur as [x|].
+  - destruct (S _ _ _ _ _ H) as [[-> ->]|R]; [left; split; reflexivity | right; exact R].
+  - rewrite regen_none_unfold in H. destruct fuel as [|f]; [discriminate|].
+    destruct (gen_table_name lower p reserved n) as [[x1 n1]|] eqn:E; [|discriminate].
+    destruct (gen_unreserved_spec _ _ _ _ _ _ _ E) as (k & Hk & -> & -> & Hr). right.
+    destruct (S _ _ _ _ _ H) as [[<- ->]|[(k' & Hk' & -> & Hlt) Hr']].
+    + split; [exists k; split; [exact Hk | split; [reflexivity | lia]] | exact Hr].
+    + split; [exists k'; split; [lia | split; [reflexivity | exact Hlt]] | exact Hr'].
 Qed.
 
-Theorem split_names_nodup p cols n l n' : split_names p cols [] n = Some (l, n') -> NoDup (somes l).
-Proof. intro H. exact (proj1 (split_names_spec p cols [] n l n' H)). Qed.
+(* ------------------------------------------------------------------ assign_names *)
+
+Lemma Forall2_imp {A B} (P Q : A -> B -> Prop) (H : forall a b, P a b -> Q a b) : forall l1 l2, Forall2 P l1 l2 -> Forall2 Q l1 l2.
+Proof. induction 1; constructor; auto. Qed.
+
+(* per position: the declared name was kept, or the name was generated at or after counter n and is unreserved *)
+Definition assigned (lower : str -> str) (p : str) (reserved : list str) (n : N) (d : option str) (x : str) : Prop :=
+  d = Some x \/ ((exists k, n <= k /\ x = gen_name p k) /\ ~ In (lower x) reserved).
+
+Theorem assign_names_spec lower p reserved : forall decls names n l n',
+  assign_names lower p reserved decls names n = Some (l, n') ->
+  NoDup l /\ (forall x, In x l -> ~ In x names) /\ length l = length decls /\ n <= n' /\
+  Forall2 (assigned lower p reserved n) decls l.
+Proof.
+  induction decls as [|d ds IH]; intros names n l n' H; cbn [assign_names] in H.
+  - injection H as <- <-. repeat split; [constructor | intros x [] | lia | constructor].
+  - destruct (regen_r (S (S (length names))) lower p reserved names d n) as [[nm n1]|] eqn:R; [|discriminate].
+    destruct (assign_names lower p reserved ds (nm :: names) n1) as [[l1 n2]|] eqn:A; [|discriminate].
+    injection H as <- <-. destruct (IH _ _ _ _ A) as (ND & F & Len & Hle & FA).
+    pose proof (regen_r_fresh _ _ _ _ _ _ _ _ _ R) as Fr.
+    pose proof (regen_with_unreserved _ _ _ _ _ _ _ _ _ R) as Or.
+    assert (n <= n1) as Hn1 by (destruct Or as [[_ ->]|[(k & Hk & _ & Hlt) _]]; lia).
+    split; [|split; [|split; [|split]]].
+    + constructor; [|exact ND]. intro Hin. apply (F nm Hin). left. reflexivity.
+    + intros x [<-|Hx]; [exact Fr|]. intro Hn. apply (F x Hx). right. exact Hn.
+    + cbn [length]. f_equal. exact Len.
+    + lia.
+    + constructor.
+      * destruct Or as [[-> _]|[(k & Hk & -> & _) Hr]]; [left; reflexivity | right].
+        split; [exists k; split; [exact Hk | reflexivity] | exact Hr].
+      * eapply Forall2_imp; [|exact FA]. intros d' x [->|[(k & Hk & ->) Hr]]; [left; reflexivity | right].
+        split; [exists k; split; [lia | reflexivity] | exact Hr].
+Qed.
+
+Theorem assign_names_total lower p reserved : (forall k, lower (gen_name p k) = gen_name p k) ->
+  forall decls names n, exists l n', assign_names lower p reserved decls names n = Some (l, n').
+Proof.
+  intro St. induction decls as [|d ds IH]; intros names n; cbn [assign_names]; [eauto|].
+  destruct (regen_r_total lower p reserved names d n St) as (nm & n1 & R). rewrite R.
+  destruct (IH (nm :: names) n1) as (l & n2 & A). rewrite A. eauto.
+Qed.
+
+(* a declaration that already has a name not taken by an earlier one keeps it: user tables keep their names *)
+Theorem assign_names_keeps_user lower p reserved nm ds names n l n' :
+  ~ In nm names -> assign_names lower p reserved (Some nm :: ds) names n = Some (l, n') -> exists l', l = nm :: l'.
+Proof.
+  intros Hn H. cbn [assign_names] in H. rewrite (regen_r_keeps lower p reserved names _ nm n Hn) in H.
+  destruct (assign_names lower p reserved ds (nm :: names) n) as [[l1 n2]|]; [|discriminate]. injection H as <- _. eauto.
+Qed.
+
+Theorem assign_names_fresh lower p reserved decls n : (forall k, lower (gen_name p k) = gen_name p k) ->
+  exists l n', assign_names lower p reserved decls [] n = Some (l, n') /\ NoDup l /\ length l = length decls.
+Proof.
+  intro St. destruct (assign_names_total lower p reserved St decls [] n) as (l & n' & A). exists l, n'. split; [exact A|].
+  destruct (assign_names_spec _ _ _ _ _ _ _ _ A) as (ND & _ & Len & _). split; assumption.
+Qed.
+
+(* THE statement behind fix 99a89d3.  users = every table name / alias the user wrote; reserved = their lower-cased forms.
+   Every position of the result either keeps the declared name or holds a generated name that differs from EVERY user name
+   when both are compared through `lower` (case-insensitively). *)
+Theorem assign_names_never_capture lower p users decls n l n' :
+  assign_names lower p (reserved_of lower users) decls [] n = Some (l, n') ->
+  NoDup l /\ length l = length decls /\
+  Forall2 (fun d x => d = Some x \/ ((exists k, n <= k /\ x = gen_name p k) /\ forall u, In u users -> lower u <> lower x)) decls l.
+Proof.
+  intro A. destruct (assign_names_spec _ _ _ _ _ _ _ _ A) as (ND & _ & Len & _ & FA).
+  split; [exact ND | split; [exact Len|]].
+  eapply Forall2_imp; [|exact FA]. intros d x [->|[G Hr]]; [left; reflexivity | right]. split; [exact G|].
+  intros u Hu E. apply Hr. unfold reserved_of. rewrite <- E. apply in_map, Hu.
+Qed.
+
+(* the same with termination, for callers that want one statement *)
+Theorem assign_names_never_capture_total lower p users decls n :
+  (forall k, lower (gen_name p k) = gen_name p k) ->
+  exists l n', assign_names lower p (reserved_of lower users) decls [] n = Some (l, n') /\
+    NoDup l /\ length l = length decls /\
+    Forall2 (fun d x => d = Some x \/ ((exists k, n <= k /\ x = gen_name p k) /\ forall u, In u users -> lower u <> lower x)) decls l.
+Proof.
+  intro St. destruct (assign_names_total lower p (reserved_of lower users) St decls [] n) as (l & n' & A).
+  exists l, n'. split; [exact A | exact (assign_names_never_capture _ _ _ _ _ _ _ A)].
+Qed.
+
+(* AnchorContext::gen_table_name on its own (alias of a wrapped sub-query) *)
+Theorem gen_table_name_never_capture lower p users n x n' :
+  gen_table_name lower p (reserved_of lower users) n = Some (x, n') ->
+  (exists k, n <= k /\ x = gen_name p k /\ n' = N.succ k) /\ forall u, In u users -> lower u <> lower x.
+Proof.
+  intro H. destruct (gen_unreserved_spec _ _ _ _ _ _ _ H) as (k & Hk & Hx & Hn & Hr). split; [eauto|].
+  intros u Hu E. apply Hr. unfold reserved_of. rewrite <- E. apply in_map, Hu.
+Qed.
+
+(* ... and from every OTHER name of the same scope, whether that one was written by the user or generated *)
+Theorem assign_names_ci_distinct lower p users decls n l n' :
+  (forall k, lower (gen_name p k) = gen_name p k) -> incl (somes decls) users ->
+  assign_names lower p (reserved_of lower users) decls [] n = Some (l, n') ->
+  forall i j di xi xj, i <> j ->
+    nth_error decls i = Some di -> nth_error l i = Some xi -> nth_error l j = Some xj ->
+    di <> Some xi -> lower xi <> lower xj.
+Proof.
+  intros St Inc A i j di xi xj Hij Hdi Hxi Hxj Hgen.
+  destruct (assign_names_never_capture _ _ _ _ _ _ _ A) as (ND & Len & FA).
+  assert (forall (k : nat) d x, nth_error decls k = Some d -> nth_error l k = Some x ->
+            d = Some x \/ ((exists m, n <= m /\ x = gen_name p m) /\ forall u, In u users -> lower u <> lower x)) as At.
+  { clear - FA. induction FA as [|d0 x0 ds xs H0 FA IH]; intros k d x Hd Hx; destruct k; try discriminate.
+    - injection Hd as <-. injection Hx as <-. exact H0.
+    - exact (IH _ _ _ Hd Hx). }
+  destruct (At _ _ _ Hdi Hxi) as [E|[(k & _ & ->) Fi]]; [contradiction|].
+  assert (exists dj, nth_error decls j = Some dj) as [dj Hdj].
+  { destruct (nth_error decls j) eqn:E; [eauto|]. apply nth_error_None in E.
+    assert (nth_error l j <> None) as N by congruence. apply nth_error_Some in N. lia. }
+  destruct (At _ _ _ Hdj Hxj) as [E|[(k' & _ & ->) _]].
+  - intro Heq. apply (Fi xj); [|symmetry; exact Heq].
+    apply Inc. clear - Hdj E. subst dj. revert j Hdj. induction decls as [|d ds IH]; intros j Hj; destruct j; try discriminate.
+    + injection Hj as ->. left. reflexivity.
+    + destruct d; [right|]; exact (IH _ Hj).
+  - rewrite !St. intro Heq. apply Hij. exact (proj1 (NoDup_nth_error l) ND i j ltac:(apply nth_error_Some; congruence) ltac:(congruence)).
+Qed.
+
+(* ------------------------------------------------------------------ columns *)
+
+Lemma ensure_column_name_wild p d b n : fst (ensure_column_name p d b n) = None <-> d = DWild.
+Proof.
+  destruct d as [|[nm|]|]; destruct b; cbn; split; intro H; try reflexivity; try discriminate.
+Qed.
+
+Lemma ensure_column_name_origin p d b n x n' : ensure_column_name p d b n = (Some x, n') ->
+  (n' = n /\ (b = Some x \/ d = DSingle (Some x))) \/ (x = gen_name p n /\ n' = N.succ n /\ b = None).
+Proof.
+  destruct d as [|[nm|]|]; destruct b; cbn; intro H; try discriminate; injection H as <- <-;
+    first [ left; split; [reflexivity|]; first [left; reflexivity | right; reflexivity]
+          | right; split; [reflexivity | split; reflexivity] ].
+Qed.
+
+Lemma split_step_spec p used old n new n' : split_step p used old n = Some (new, n') ->
+  (old = None /\ new = None /\ n' = n) \/
+  (exists o x, old = Some o /\ new = Some x /\ ~ In x used /\ ((x = o /\ n' = n) \/ exists k, n <= k /\ x = gen_name p k /\ k < n')).
+Proof.
+  destruct old as [o|]; cbn [split_step]; intro H.
+  - destruct (regen (S (S (length used))) p used (Some o) n) as [[x n1]|] eqn:R; [|discriminate]. injection H as <- <-.
+    right. exists o, x. split; [reflexivity | split; [reflexivity|]]. split; [exact (regen_fresh _ _ _ _ _ _ _ R)|].
+    destruct (regen_origin _ _ _ _ _ _ _ R) as [[E ->]|K]; [left; split; [congruence | reflexivity] | right; exact K].
+  - injection H as <- <-. left. auto.
+Qed.
+
+Lemma split_step_total p used old n : exists new n', split_step p used old n = Some (new, n').
+Proof.
+  destruct old as [o|]; cbn [split_step]; [|eauto].
+  destruct (regen_terminates p used (Some o) n) as (x & n' & R). rewrite R. eauto.
+Qed.
+
+Lemma split_step_keeps p used nm n : ~ In nm used -> split_step p used (Some nm) n = Some (Some nm, n).
+Proof. intro H. cbn [split_step]. rewrite (regen_keeps p used _ nm n H). reflexivity. Qed.
+
+(* anchor_split is collision-free (exact comparison) for ALL inputs *)
+Theorem split_names_spec p : forall cols used n l n',
+  split_names p cols used n = Some (l, n') ->
+  NoDup (somes l) /\ (forall x, In x (somes l) -> ~ In x used) /\ length l = length cols /\
+  Forall2 (fun c x => x = None <-> fst c = DWild) cols l.
+Proof.
+  induction cols as [|[d b] cs IH]; intros used n l n' H; cbn [split_names] in H.
+  - injection H as <- _. repeat split; [constructor | intros x [] | constructor].
+  - destruct (ensure_column_name p d b n) as [old n0] eqn:En.
+    destruct (split_step p used old n0) as [[new n1]|] eqn:St; [|discriminate].
+    destruct (split_names p cs (add_used new used) n1) as [[l1 n2]|] eqn:A; [|discriminate].
+    injection H as <- _. destruct (IH _ _ _ _ A) as (ND & F & Len & FW).
+    assert (new = None <-> d = DWild) as W.
+    { rewrite <- (ensure_column_name_wild p d b n), En. cbn [fst].
+      destruct (split_step_spec _ _ _ _ _ _ St) as [(-> & -> & _)|(o & x & -> & -> & _)]; split; intro; try reflexivity; discriminate. }
+    destruct (split_step_spec _ _ _ _ _ _ St) as [(_ & -> & _)|(o & x & _ & -> & Fr & _)]; cbn [somes add_used] in *.
+    + split; [exact ND | split; [exact F | split; [cbn [length]; f_equal; exact Len | constructor; [exact W | exact FW]]]].
+    + split; [|split; [|split]].
+      * constructor; [|exact ND]. intro Hin. apply (F _ Hin). left. reflexivity.
+      * intros y [<-|Hy]; [exact Fr|]. intro Hu. apply (F _ Hy). right. exact Hu.
+      * cbn [length]. f_equal. exact Len.
+      * constructor; [exact W | exact FW].
+Qed.
+
+Theorem split_names_total p : forall cols used n, exists l n', split_names p cols used n = Some (l, n').
+Proof.
+  induction cols as [|[d b] cs IH]; intros used n; cbn [split_names]; [eauto|].
+  destruct (ensure_column_name p d b n) as [old n0].
+  destruct (split_step_total p used old n0) as (new & n1 & St). rewrite St.
+  destruct (IH (add_used new used) n1) as (l & n2 & A). rewrite A. eauto.
+Qed.
+
+Theorem split_names_fresh p cols n :
+  exists l n', split_names p cols [] n = Some (l, n') /\ NoDup (somes l) /\ length l = length cols /\
+               Forall2 (fun c x => x = None <-> fst c = DWild) cols l.
+Proof.
+  destruct (split_names_total p cols [] n) as (l & n' & A). exists l, n'. split; [exact A|].
+  destruct (split_names_spec p _ _ _ _ _ A) as (ND & _ & Len & FW). auto.
+Qed.
+
+(* a column that has a name which is not taken earlier at the split keeps it *)
+Theorem split_names_keeps p d b nm cs used n l n' :
+  ensure_column_name p d b n = (Some nm, n) -> ~ In nm used ->
+  split_names p ((d, b) :: cs) used n = Some (l, n') -> exists l', l = Some nm :: l'.
+Proof.
+  intros En Hn H. cbn [split_names] in H. rewrite En, (split_step_keeps p used nm n Hn) in H.
+  destruct (split_names p cs (add_used (Some nm) used) n) as [[l1 n2]|]; [|discriminate]. injection H as <- _. eauto.
+Qed.
+
+Theorem select_item_alias_fresh p used n :
+  exists nm n', select_item_alias p used n = Some (nm, n') /\ ~ In nm used /\ exists k, n <= k /\ nm = gen_name p k /\ k < n'.
+Proof.
+  unfold select_item_alias. destruct (regen_terminates p used None n) as (nm & n' & R). exists nm, n'.
+  split; [exact R | split; [exact (regen_fresh _ _ _ _ _ _ _ R)|]].
+  destruct (regen_origin _ _ _ _ _ _ _ R) as [[E _]|K]; [discriminate | exact K].
+Qed.
+
+(* ---- columns compared case-insensitively: every output name is a name that came in or a generated name *)
+Lemma split_names_origin p : forall cols used n l n',
+  split_names p cols used n = Some (l, n') ->
+  forall x, In x (somes l) ->
+    (exists k, x = gen_name p k) \/ (exists d b, In (d, b) cols /\ (b = Some x \/ d = DSingle (Some x))).
+Proof.
+  induction cols as [|[d b] cs IH]; intros used n l n' H x Hx; cbn [split_names] in H.
+  - injection H as <- _. destruct Hx.
+  - destruct (ensure_column_name p d b n) as [old n0] eqn:En.
+    destruct (split_step p used old n0) as [[new n1]|] eqn:St; [|discriminate].
+    destruct (split_names p cs (add_used new used) n1) as [[l1 n2]|] eqn:A; [|discriminate].
+    injection H as <- _.
+    assert (In x (somes l1) -> (exists k, x = gen_name p k) \/ (exists d0 b0, In (d0, b0) ((d, b) :: cs) /\ (b0 = Some x \/ d0 = DSingle (Some x)))) as Rec.
+    { intro Hin. destruct (IH _ _ _ _ A x Hin) as [K|(d0 & b0 & Hin0 & Hor)]; [left; exact K | right].
+      exists d0, b0. split; [right; exact Hin0 | exact Hor]. }
+    destruct (split_step_spec _ _ _ _ _ _ St) as [(_ & -> & _)|(o & y & -> & -> & _ & Hy)]; cbn [somes] in Hx.
+    + exact (Rec Hx).
+    + destruct Hx as [<-|Hx]; [|exact (Rec Hx)].
+      destruct Hy as [[-> _]|(k & _ & -> & _)]; [|left; eauto].
+      destruct (ensure_column_name_origin _ _ _ _ _ _ En) as [(_ & Hor)|(-> & _)]; [right | left; eauto].
+      exists d, b. split; [left; reflexivity | exact Hor].
+Qed.
+
+(* the user names that reach a split *)
+Definition col_user_names (cols : list (cdecl * option str)) (x : str) : Prop :=
+  exists d b, In (d, b) cols /\ (b = Some x \/ d = DSingle (Some x)).
+
+(* PARTIAL: when no user column is a case variant of a generated name (other than the generated spelling itself), a name
+   of the split that is spelled like a generated one is matched, case-insensitively, only by itself *)
+Theorem split_names_ci_partial lower p cols n l n' :
+  (forall k, lower (gen_name p k) = gen_name p k) ->
+  (forall u k, col_user_names cols u -> lower u = gen_name p k -> u = gen_name p k) ->
+  split_names p cols [] n = Some (l, n') ->
+  forall x y k, In x (somes l) -> In y (somes l) -> x = gen_name p k -> lower y = lower x -> y = x.
+Proof.
+  intros St NK A x y k Hx Hy -> E. rewrite St in E.
+  destruct (split_names_origin p _ _ _ _ _ A y Hy) as [(k' & ->)|U].
+  - rewrite St in E. exact E.
+  - exact (NK _ _ U E).
+Qed.
 
 Lemma not_nodup_witness (x : str) (l : list str) : In x l -> ~ NoDup (x :: l).
 Proof. intros Hin H. inversion H as [|y l' Hx _]. exact (Hx Hin). Qed.
 
-Theorem split_names_total p : forall cols used n, exists l n', split_names p cols used n = Some (l, n').
+(* ------------------------------------------------------------------ lower-casing *)
+
+Lemma lower_ascii_app a b : lower_ascii (a ++ b) = lower_ascii a ++ lower_ascii b.
+Proof. apply map_app. Qed.
+
+Lemma lower_ascii_digits : forall w, forallb is_digit w = true -> lower_ascii w = w.
 Proof.
-  induction cols as [|c cs IH]; intros used n; cbn [split_names]; [eauto|].
-  destruct c as [nm|].
-  - destruct (regen_total p used (S (S (length used))) (Some nm) n) as (nm1 & n1 & R); [lia|]. rewrite R.
-    destruct (IH (nm1 :: used) n1) as (l & n2 & A). rewrite A. eauto.
-  - destruct (IH used n) as (l & n2 & A). rewrite A. eauto.
+  induction w as [|c w IH]; intro H; [reflexivity|]. cbn [forallb] in H. apply andb_prop in H as [Hc Hw].
+  unfold lower_ascii in *. cbn [map]. rewrite (IH Hw). f_equal.
+  unfold is_digit in Hc. unfold lower_ascii_c. apply andb_prop in Hc as [H1 H2].
+  apply N.leb_le in H1. apply N.leb_le in H2.
+  destruct ((65 <=? c) && (c <=? 90)) eqn:E; [|reflexivity].
+  apply andb_prop in E as [E1 _]. apply N.leb_le in E1. lia.
 Qed.
 
-Lemma split_names_length p : forall cols used n l n', split_names p cols used n = Some (l, n') -> length l = length cols.
+(* generated names are their own lower-case form when the prefix is *)
+Theorem gen_name_lower_stable p : lower_ascii p = p -> forall k, lower_ascii (gen_name p k) = gen_name p k.
 Proof.
-  induction cols as [|c cs IH]; intros used n l n' H; cbn [split_names] in H.
-  - injection H as <- _. reflexivity.
-  - destruct c as [nm|].
-    + destruct (regen (S (S (length used))) p used (Some nm) n) as [[nm1 n1]|]; [|discriminate].
-      destruct (split_names p cs (nm1 :: used) n1) as [[l1 n2]|] eqn:A; [|discriminate].
-      injection H as <- _. cbn [length]. f_equal. exact (IH _ _ _ _ A).
-    + destruct (split_names p cs used n) as [[l1 n2]|] eqn:A; [|discriminate].
-      injection H as <- _. cbn [length]. f_equal. exact (IH _ _ _ _ A).
+  intros Hp k. unfold gen_name. rewrite lower_ascii_app, Hp. f_equal. apply lower_ascii_digits, digits_of_all_digit.
 Qed.
 
-Theorem split_names_fresh p cols n :
-  exists l n', split_names p cols [] n = Some (l, n') /\ NoDup (somes l) /\ length l = length cols.
+Lemma lower_ascii_c_ascii c : (lower_ascii_c c <? 128) = (c <? 128).
 Proof.
-  destruct (split_names_total p cols [] n) as (l & n' & A). exists l, n'. split; [exact A|]. split.
-  - exact (split_names_nodup p cols n l n' A).
-  - exact (split_names_length p cols [] n l n' A).
+  unfold lower_ascii_c. destruct ((65 <=? c) && (c <=? 90)) eqn:E; [|reflexivity].
+  apply andb_prop in E as [E1 E2]. apply N.leb_le in E1. apply N.leb_le in E2.
+  assert (c + 32 <? 128 = true) as -> by (apply N.ltb_lt; lia). symmetry. apply N.ltb_lt. lia.
 Qed.
 
-(* a column name that is not taken earlier at the split keeps its name *)
-Theorem split_names_keeps p nm cs used n l n' :
-  ~ In nm used -> split_names p (Some nm :: cs) used n = Some (l, n') -> exists l', l = Some nm :: l'.
+Lemma lower_ascii_ascii_only s : ascii_only (lower_ascii s) = ascii_only s.
 Proof.
-  intros Hn H. cbn [split_names] in H. rewrite (regen_keeps p used _ nm n Hn) in H.
-  destruct (split_names p cs (nm :: used) n) as [[l1 n2]|]; [|discriminate]. injection H as <- _. eauto.
+  unfold ascii_only, lower_ascii. induction s as [|c s IH]; [reflexivity|]. cbn [map forallb].
+  rewrite lower_ascii_c_ascii, IH. reflexivity.
+Qed.
+
+(* Rust compares through Unicode lower-casing, SQLite (MySQL, SQL Server: at least) folds ASCII letters.  Any lower-casing
+   that agrees with ASCII lower-casing on ASCII-only strings gives ASCII-case-insensitive distinctness from an ASCII name *)
+Theorem lower_distinct_implies_ascii_distinct (lower : str -> str) u g :
+  (forall s, ascii_only s = true -> lower s = lower_ascii s) -> ascii_only g = true ->
+  lower u <> lower g -> lower_ascii u <> lower_ascii g.
+Proof.
+  intros Ag Hg Hne E. apply Hne.
+  assert (ascii_only u = true) as Hu.
+  { rewrite <- lower_ascii_ascii_only, E, lower_ascii_ascii_only. exact Hg. }
+  rewrite (Ag _ Hu), (Ag _ Hg). exact E.
 Qed.
